@@ -335,6 +335,7 @@ def run_check(prop, tier, only=None, keep=False, extra=None):
                 "counterexample",
                 "replay",
                 "known_finding",
+                "engine_message",
                 "detail",
             )
             if r.get(k) not in (None, "")
